@@ -8,8 +8,6 @@ them alone or removes some; `insert_job` adds at most one pair, with the group i
 namespace Cicada.Term
 open Cicada.Jobs Cicada.C07
 
-def keys (s : Sh) : List (Nat × Pid) := s.jobs.map fun j => (j.id, j.gid)
-
 theorem keys_of_jobs_eq {s s' : Sh} (h : s'.jobs = s.jobs) : keys s' = keys s := by simp [keys, h]
 
 theorem updJob_keys (s : Sh) (i : Nat) (f : Job → Job) (hf : ∀ j, (f j).id = j.id ∧ (f j).gid = j.gid) : keys (updJob s i f) = keys s := by
